@@ -184,7 +184,8 @@ C02_Ctor(s, o) ==
       /\ SameOrBothEmpty("fragment", a.fragment, Frag5(o))
 
 \* pairs of a query argument whose values are all plain strings: <<key text, value text>>
-AllStrPairs(q) == \A i \in 1..Len(q.pairs) : q.pairs[i][2].t = "str"
+\* simple values: strings, and numbers by their str() rendering (the text recorded with the value)
+AllStrPairs(q) == \A i \in 1..Len(q.pairs) : q.pairs[i][2].t \in {"str", "int"} \/ (q.pairs[i][2].t = "float" /\ q.pairs[i][2].s \notin {<<110,97,110>>, <<105,110,102>>, <<45,105,110,102>>})
 StrPairs(q) == [i \in 1..Len(q.pairs) |-> <<q.pairs[i][1], q.pairs[i][2].s>>]
 RawPieces(raw) == LET ps == Split(raw, AMP) IN
    IF raw = <<>> THEN <<>> ELSE [i \in 1..Len(ps) |-> LET pr == Partition(ps[i], EQ) IN <<pr[1], pr[3]>>]
